@@ -492,9 +492,10 @@ class Ref:
                 for wev, wkey in self.waits[wid]:
                     self.reg[wev] = [g for g in self.reg.get(wev, []) if g[0] != wkey]
                 if wid in self.resolved:
+                    # `if _future.done(): return` (fix 7ae9e07; set_result raised InvalidStateError before)
                     self.flags.add("future-resolved-twice")
-                    self.trace.append(["x"])
-                    raise RefStop()
+                    result = None
+                    continue
                 self.resolved.add(wid)
                 self.trace.append(["f", wid])
                 self.flags.add("future-resolved")
@@ -1344,7 +1345,7 @@ def corpus():
                               {"ctx": "switch", "acts": [["E", 1, 10003], ["M", 10099], ["H", 1, H(7, -1, 1)],
                                                          ["P", 1, "n", None, [[1, 1]]]]}]})
     # monitor: every post is reported and queued, also the one nobody listens to; wait_for_any_event on two strings of one
-    # event and one of another: the first post resolves (second handler of the same snapshot: InvalidStateError)
+    # event and one of another: the first post resolves (the second handler of the same snapshot finds the future done)
     cases.append({"progs": {"1": {"acts": [["P", 3, "n", None, [[2, 2]]]], "ret": ["N"]}, "9": {"acts": [], "ret": ["N"]}},
                   "stimuli": [{"ctx": "boot", "acts": [["A", 1, H(1, 0, 1)], ["W", 1, [[2, 2, None, None], [1, 3, [1, 1], None]]],
                                                        ["W", 2, [[2, 4, None, None], [2, 5, None, 1]]]]},
